@@ -1,5 +1,4 @@
 import ast
-from keyword import iskeyword
 from typing import List, Optional, cast
 
 from graphql import GraphQLEnumType, GraphQLSchema
@@ -12,6 +11,7 @@ from ..codegen import (
     generate_module,
 )
 from ..plugins.manager import PluginManager
+from ..utils import enum_member_name
 from .constants import ENUM_CLASS, ENUM_MODULE
 
 
@@ -58,7 +58,7 @@ class EnumsGenerator:
         for lineno, (val_name, val_def) in enumerate(
             definition.values.items(), start=1
         ):
-            name = val_name if not iskeyword(val_name) else val_name + "_"
+            name = enum_member_name(val_name)
             fields.append(
                 generate_assign([name], generate_constant(val_def.value), lineno)
             )
